@@ -208,6 +208,9 @@ func (u *Unit) whyNotInline(f *ssa.Function) string {
 	if f.Blocks == nil {
 		return "no body"
 	}
+	if !strings.Contains(f.String(), modulePath) {
+		return "external function"
+	}
 	for _, s := range u.stack {
 		if s == f {
 			return "recursive"
